@@ -64,9 +64,8 @@ def qMin : Q → Q → Q
   | _, _ => none
 
 def zipPad (f : Q → Q → Q) : RL → RL → RL
-  | [], [] => []
+  | [], bs => bs.map (fun b => f none b)
   | a :: as, [] => f a none :: zipPad f as []
-  | [], b :: bs => f none b :: zipPad f [] bs
   | a :: as, b :: bs => f a b :: zipPad f as bs
 
 def rlAdd (a b : RL) : RL := zipPad qAdd a b
@@ -74,9 +73,8 @@ def rlSubNN (a b : RL) : RL := zipPad qSubNN a b
 def rlMin (a b : RL) : RL := zipPad qMin a b
 
 def rlLeq : RL → RL → Bool
-  | [], [] => true
+  | [], bs => bs.all (fun b => qLeq none b)
   | a :: as, [] => qLeq a none && rlLeq as []
-  | [], b :: bs => qLeq none b && rlLeq [] bs
   | a :: as, b :: bs => qLeq a b && rlLeq as bs
 
 def rlIsZero (a : RL) : Bool := a.all qZero
@@ -206,7 +204,12 @@ def candLe (pref : List Nat) (x y : Nat × RL) : Bool :=
   else if !px && py then false
   else x.1 ≤ y.1
 
-def sortCands (free : DevRes) (pref : List Nat) : DevRes := free.mergeSort (candLe pref)
+/-- insertion sort (the comparator is a total order on distinct minors, so every sort gives this list) -/
+def insCand (le : Nat × RL → Nat × RL → Bool) (x : Nat × RL) : DevRes → DevRes
+  | [] => [x]
+  | y :: ys => if le x y then x :: y :: ys else y :: insCand le x ys
+
+def sortCands (free : DevRes) (pref : List Nat) : DevRes := free.foldr (insCand (candLe pref)) []
 
 /-- the three `continue` guards of the defaultAllocateDevices loop -/
 def qualifies (a : AllocReq) (c : Nat × RL) : Bool :=
